@@ -75,6 +75,58 @@ theorem filter_upto_lt (N : Nat) (x : Int) (h0 : 0 ≤ x) (h : x < N) :
       have : ((i : Int) < x) := by omega
       simp [this]
 
+end C13.E
+
+namespace C13
+
+/-! ### `sorted` is a sorted permutation -/
+
+theorem insertAsc_perm (x : Int) (l : List Int) : (insertAsc x l).Perm (x :: l) := by
+  induction l with
+  | nil => exact List.Perm.refl _
+  | cons y ys ih =>
+    unfold insertAsc
+    split
+    · exact List.Perm.refl _
+    · exact (List.Perm.cons y ih).trans (List.Perm.swap x y ys)
+
+theorem sortAsc_perm (l : List Int) : (sortAsc l).Perm l := by
+  induction l with
+  | nil => exact List.Perm.refl _
+  | cons x l ih => exact (insertAsc_perm x (sortAsc l)).trans (List.Perm.cons x ih)
+
+theorem insertAsc_sorted (x : Int) (l : List Int) (h : l.Pairwise (· ≤ ·)) : (insertAsc x l).Pairwise (· ≤ ·) := by
+  induction l with
+  | nil => simp [insertAsc]
+  | cons y ys ih =>
+    rw [List.pairwise_cons] at h
+    unfold insertAsc
+    split
+    · rename_i hxy
+      rw [List.pairwise_cons]
+      refine ⟨?_, List.pairwise_cons.mpr h⟩
+      intro z hz
+      rcases List.mem_cons.mp hz with rfl | hz
+      · exact hxy
+      · exact Int.le_trans hxy (h.1 z hz)
+    · rename_i hxy
+      rw [List.pairwise_cons]
+      refine ⟨?_, ih h.2⟩
+      intro z hz
+      rcases List.mem_cons.mp ((insertAsc_perm x ys).mem_iff.mp hz) with rfl | hz
+      · omega
+      · exact h.1 z hz
+
+theorem sortAsc_sortedLE (l : List Int) : (sortAsc l).Pairwise (· ≤ ·) := by
+  induction l with
+  | nil => simp [sortAsc]
+  | cons x l ih => exact insertAsc_sorted x _ ih
+
+end C13
+
+namespace C13.E
+open Graph
+
 /-! ### `sorted` of an ascending list -/
 
 theorem insertAsc_le (x : Int) (l : List Int) (h : ∀ y ∈ l, x ≤ y) : insertAsc x l = x :: l := by
@@ -114,24 +166,25 @@ theorem mapId_zipIdx (L : List Int) (off : Int) (hn : L.Nodup) (s i : Nat) (hi :
       have : s + 1 + j = s + (j + 1) := by omega
       rw [this]
 
-/-- on a graph whose ids are `0..N-1` without `x`, `relabel_graph(·, 0)` renames by `ren x`, which
-    `unren x` inverts -/
+/-- on a graph whose ids are `0..N-1` without `x` — in any node order — `relabel_graph(·, 0)` renames
+    by `ren x`, which `unren x` inverts -/
 theorem relabel_inverts {g : Graph} {N : Nat} {x : Int} (h0 : 0 ≤ x) (hx : x < N)
-    (hids : g.nodeIds = (upto N).filter (· != x)) :
+    (hids : g.nodeIds.Perm ((upto N).filter (· != x))) :
     Inverts g (mapId (relabelMapping g 0)) (unren x) := by
-  have hsorted : sortAsc g.nodeIds = g.nodeIds := by
-    apply sortAsc_sorted
-    rw [hids]
-    exact ((upto_pairwise N).imp (fun h => by omega)).sublist List.filter_sublist
+  have hLs : ((upto N).filter (· != x)).Pairwise (· ≤ ·) :=
+    ((upto_pairwise N).imp (fun h => by omega)).sublist List.filter_sublist
+  have hsorted : sortAsc g.nodeIds = (upto N).filter (· != x) :=
+    List.Perm.eq_of_pairwise (le := (· ≤ ·)) (fun a b _ _ h1 h2 => by omega)
+      (C13.sortAsc_sortedLE _) hLs ((C13.sortAsc_perm _).trans hids)
   have hL := filter_upto_lt N x h0 hx
-  have hnd : g.nodeIds.Nodup := by rw [hids]; exact (upto_nodup N).sublist List.filter_sublist
+  have hnd : ((upto N).filter (· != x)).Nodup := (upto_nodup N).sublist List.filter_sublist
   intro u hu c
   unfold relabelMapping
   rw [hsorted]
-  obtain ⟨i, hi, rfl⟩ := List.getElem_of_mem hu
-  rw [mapId_zipIdx g.nodeIds 0 hnd 0 i hi]
-  have hval : g.nodeIds[i] = unren x (i : Int) := by
-    have : g.nodeIds = (List.range (N - 1)).map fun (i : Nat) => unren x (i : Int) := by rw [hids, hL]
+  obtain ⟨i, hi, rfl⟩ := List.getElem_of_mem (hids.mem_iff.mp hu)
+  rw [mapId_zipIdx _ 0 hnd 0 i hi]
+  have hval : ((upto N).filter (· != x))[i] = unren x (i : Int) := by
+    have : (upto N).filter (· != x) = (List.range (N - 1)).map fun (i : Nat) => unren x (i : Int) := hL
     simp [this]
   rw [hval]
   constructor
